@@ -3,6 +3,7 @@
 package dispatchcloud
 
 import (
+	"encoding/json"
 	"errors"
 	"fmt"
 	"io"
@@ -60,6 +61,41 @@ type cqAPI struct {
 	faults  bool             // the records' faults are active (judged Update)
 	warming bool             // the first, unjudged poll
 	calls   map[int][]string // per container, in order
+	pageMax int              // a list response carries at most this many items (the controller's response size limit)
+	pages   int              // list responses that were cut short
+}
+
+// Every answer reaches the caller the way the real arvados.Client delivers it: as JSON decoded into dst
+// (so whatever dst already holds is merged with, not replaced by, the answer).  A list answer carries only
+// the selected attributes, and "mounts" is always an object.
+func cqDecode(dst interface{}, v interface{}) error {
+	if dst == nil {
+		return nil
+	}
+	buf, err := json.Marshal(v)
+	if err != nil {
+		return err
+	}
+	return json.Unmarshal(buf, dst)
+}
+
+func cqItem(c arvados.Container, sel []string) map[string]interface{} {
+	var all map[string]interface{}
+	buf, _ := json.Marshal(c)
+	json.Unmarshal(buf, &all)
+	if all["mounts"] == nil {
+		all["mounts"] = map[string]interface{}{}
+	}
+	if len(sel) == 0 {
+		return all
+	}
+	r := map[string]interface{}{}
+	for _, k := range sel {
+		if v, ok := all[k]; ok {
+			r[k] = v
+		}
+	}
+	return r
 }
 
 func (a *cqAPI) ctr(r *cqRec) arvados.Container {
@@ -83,8 +119,7 @@ func (a *cqAPI) RequestAndDecode(dst interface{}, method, path string, body io.R
 	defer a.mtx.Unlock()
 	switch {
 	case method == "GET" && path == "arvados/v1/api_client_authorizations/current":
-		dst.(*arvados.APIClientAuthorization).UUID = cqMe
-		return nil
+		return cqDecode(dst, arvados.APIClientAuthorization{UUID: cqMe})
 	case method == "GET" && path == "arvados/v1/containers":
 		p := params.(arvados.ResourceListParams)
 		var ids []int
@@ -92,7 +127,7 @@ func (a *cqAPI) RequestAndDecode(dst interface{}, method, path string, body io.R
 			ids = append(ids, id)
 		}
 		sort.Ints(ids)
-		var items []arvados.Container
+		var items []map[string]interface{}
 		for _, id := range ids {
 			r := a.db[id]
 			ok := true
@@ -117,7 +152,7 @@ func (a *cqAPI) RequestAndDecode(dst interface{}, method, path string, body io.R
 				}
 			}
 			if ok {
-				items = append(items, a.ctr(r))
+				items = append(items, cqItem(a.ctr(r), p.Select))
 			}
 		}
 		if p.Offset >= len(items) {
@@ -125,14 +160,22 @@ func (a *cqAPI) RequestAndDecode(dst interface{}, method, path string, body io.R
 		} else {
 			items = items[p.Offset:]
 		}
-		dst.(*arvados.ContainerList).Items = items
-		return nil
+		if p.Limit != nil && len(items) > *p.Limit {
+			items = items[:*p.Limit]
+		}
+		if a.pageMax > 0 && len(items) > a.pageMax {
+			items = items[:a.pageMax]
+			a.pages++
+		}
+		if items == nil {
+			items = []map[string]interface{}{}
+		}
+		return cqDecode(dst, map[string]interface{}{"items": items})
 	case method == "GET" && strings.HasPrefix(path, "arvados/v1/containers/"):
 		id := cqNum(path)
 		a.calls[id] = append(a.calls[id], "AGet")
 		if r := a.db[id]; r != nil {
-			*dst.(*arvados.Container) = a.ctr(r)
-			return nil
+			return cqDecode(dst, a.ctr(r))
 		}
 		return errors.New("stub: not found")
 	case method == "POST" && strings.HasSuffix(path, "/lock"):
@@ -144,8 +187,7 @@ func (a *cqAPI) RequestAndDecode(dst interface{}, method, path string, body io.R
 		}
 		r.state, r.mine = 1, true
 		a.calls[id] = append(a.calls[id], "ALock true")
-		*dst.(*arvados.Container) = a.ctr(r)
-		return nil
+		return cqDecode(dst, a.ctr(r))
 	case method == "POST" && strings.HasSuffix(path, "/unlock"):
 		id := cqNum(strings.TrimSuffix(path, "/unlock"))
 		r := a.db[id]
@@ -155,8 +197,7 @@ func (a *cqAPI) RequestAndDecode(dst interface{}, method, path string, body io.R
 		}
 		r.state, r.mine = 0, false
 		a.calls[id] = append(a.calls[id], "AUnlock true")
-		*dst.(*arvados.Container) = a.ctr(r)
-		return nil
+		return cqDecode(dst, a.ctr(r))
 	case method == "PUT" && strings.HasPrefix(path, "arvados/v1/containers/"):
 		id := cqNum(path)
 		r := a.db[id]
@@ -187,7 +228,7 @@ func (a *cqAPI) RequestAndDecode(dst interface{}, method, path string, body io.R
 			return fmt.Errorf("stub: unsupported update %T", params)
 		}
 		if c, ok := dst.(*arvados.Container); ok && c != nil {
-			*c = a.ctr(r)
+			return cqDecode(c, a.ctr(r))
 		}
 		return nil
 	}
@@ -344,6 +385,13 @@ func TestVerifC16CQ(t *testing.T) {
 		// ---- container records ----
 		nc := 1 + r.Intn(6)
 		api := &cqAPI{db: map[int]*cqRec{}, calls: map[int][]string{}, cc: cc}
+		// the controller cuts list responses short (its response size limit): the queue has to page
+		if r.Chance(1, 2) {
+			api.pageMax = 1 + r.Intn(3)
+			if r.Chance(1, 2) {
+				nc += r.Intn(4)
+			}
+		}
 		orig := map[int]arvados.Container{}
 		var later []*cqRec // arrive after the first poll
 		var consS []string
@@ -395,7 +443,7 @@ func TestVerifC16CQ(t *testing.T) {
 			}
 			var mounts [][2]int64
 			if wantScr > 0 || r.Chance(1, 3) {
-				ctr.Mounts = map[string]arvados.Mount{"/tmp": {Kind: "tmp", Capacity: wantScr}}
+				ctr.Mounts = map[string]arvados.Mount{r.Pick("/tmp", "/scratch", "/var/spool/cwl"): {Kind: "tmp", Capacity: wantScr}}
 				mounts = append(mounts, [2]int64{1, wantScr})
 				if r.Chance(1, 4) {
 					ctr.Mounts["/keep"] = arvados.Mount{Kind: "collection", Capacity: 12345}
@@ -544,8 +592,12 @@ func TestVerifC16CQ(t *testing.T) {
 		desc := map[string]interface{}{"types(id,price*4,ram,vcpus,scratch,preemptible)": tys, "reserve": reserve,
 			"constraints(uuid, ram keep_cache_ram vcpus mounts image preemptible)": consS,
 			"db_before(uuid,state,prio,mine,errclass)":                             dbS, "entries_before(uuid,state,prio,type)": curS, "faults": faultS,
-			"entries_after": afterS, "requests": callS, "db_after": dbAfterS, "ok": ok}
-		tags = append(tags, fmt.Sprintf("nt=%d", nt), fmt.Sprintf("cancels=%d", ncancel), fmt.Sprintf("entries=%d", len(afterS)))
+			"entries_after": afterS, "requests": callS, "db_after": dbAfterS, "ok": ok, "page_max(0 = unlimited)": api.pageMax}
+		tags = append(tags, fmt.Sprintf("nt=%d", nt), fmt.Sprintf("cancels=%d", ncancel), fmt.Sprintf("entries=%d", len(afterS)),
+			fmt.Sprintf("pagemax=%d", api.pageMax))
+		if api.pages > 0 {
+			tags = append(tags, "paged")
+		}
 		for _, e := range afterS {
 			f := strings.Fields(e)
 			tags = append(tags, "entstate="+f[2])
